@@ -459,13 +459,12 @@ def backFind (mem : Bytes) : Nat → Res Nat
     if Gen.Parse.backIsEol b.toNat then .ok (k + 1) else backFind mem k
 
 /-- the slice `[pbegin, pend)` of thread `tid` for a chunk of `size` bytes at position 0 of `mem` -/
-def threadSlice (mem : Bytes) (size nthread tid : Nat) : Res (Nat × Nat) := do
-  let nstep := Gen.Parse.nstep size nthread
-  let sbegin := Gen.Parse.sbegin tid nstep size
-  let send := Gen.Parse.send tid nstep size
-  let pbegin ← backFind mem sbegin
-  let pend ← if Gen.Parse.lastThread tid nthread then pure send else backFind mem send
-  return (pbegin, pend)
+def threadSlice (mem : Bytes) (size nthread tid : Nat) : Res (Nat × Nat) :=
+  (backFind mem (Gen.Parse.sbegin tid (Gen.Parse.nstep size nthread) size)).bind fun pbegin =>
+    (if Gen.Parse.lastThread tid nthread then
+        (.ok (Gen.Parse.send tid (Gen.Parse.nstep size nthread) size) : Res Nat)
+      else backFind mem (Gen.Parse.send tid (Gen.Parse.nstep size nthread) size)).bind fun pend =>
+    .ok (pbegin, pend)
 
 /-- `FillData`: one container per thread, in thread order -/
 def fillData (parse : Bytes → Nat → Nat → Res Container) (mem : Bytes) (size nthread : Nat) : Res (List Container) :=
